@@ -50,3 +50,40 @@ Lemma link_new_calls : C17_Gen.new_calls =
   ["make"; "syncx.NewSingleFlight"; "mathx.NewUnstable"; "opt"; "len"; "newCacheStat"; "return";
    "cache.Del"; "NewTimingWheel"; "return"; "return"].
 Proof. reflexivity. Qed.
+
+(* keyLru.remove goes through removeElement (list, index and onEvict together) *)
+Lemma link_lru_remove_calls : C17_Gen.lru_remove_calls = ["k.removeElement"].
+Proof. reflexivity. Qed.
+
+(* the authenticator looks the token up inside cache.Take; an error passes in non-strict mode *)
+Lemma link_auth_validate_calls : C17_Gen.auth_validate_calls =
+  ["a.store.HGet"; "return"; "a.cache.Take"; "err.Error"; "status.Error"; "return"; "return"; "status.Error"; "return"; "return"].
+Proof. reflexivity. Qed.
+
+(* the jitter is one float64 expression on one Float64() draw *)
+Lemma link_around_calls : C17_Gen.around_calls =
+  ["u.lock.Lock"; "u.r.Float64"; "float64"; "time.Duration"; "u.lock.Unlock"; "return"].
+Proof. reflexivity. Qed.
+
+Local Close Scope string_scope.
+Local Open Scope Z_scope.
+
+(* the deviation the jitter model (Exec.jit_exact) uses is the regenerated constant: 1/20 *)
+Lemma link_dev : dev_num = 1 /\ dev_den = 20.
+Proof. split; reflexivity. Qed.
+
+(* exact arithmetic on the draw: for every base >= 0 and every draw 0 <= d < 2^63 the jittered value lies
+   within [95%, 105%] of the base (rounded down) -- the window the statement speaks of *)
+Lemma jit_exact_window base d : 0 <= base -> 0 <= d < two63 ->
+  base * 95 / 100 <= jit_exact base d <= base * 105 / 100.
+Proof.
+  intros Hb Hd. unfold jit_exact. destruct link_dev as [-> ->]. unfold two63 in *.
+  set (P := 9223372036854775808) in *. assert (HP : 0 < P) by (unfold P; lia).
+  assert (E1 : base * 95 / 100 = base * 19 * P / (20 * P)).
+  { rewrite Z.div_mul_cancel_r by lia. replace (base * 95) with (base * 19 * 5) by lia.
+    replace 100 with (20 * 5) by lia. rewrite Z.div_mul_cancel_r by lia. reflexivity. }
+  assert (E2 : base * 105 / 100 = base * 21 * P / (20 * P)).
+  { rewrite Z.div_mul_cancel_r by lia. replace (base * 105) with (base * 21 * 5) by lia.
+    replace 100 with (20 * 5) by lia. rewrite Z.div_mul_cancel_r by lia. reflexivity. }
+  rewrite E1, E2. split; apply Z.div_le_mono; try lia; nia.
+Qed.
